@@ -91,6 +91,11 @@ let ev_str = function
   | EvReturn i -> Printf.sprintf "r%d" (int_of_nat i)
 
 exception Too_deep
+exception Overflow
+
+(* the implementation's int is 32 bits and range-checked (property C04); the model computes in Z.
+   A case in which a local or an awaited value leaves +-2^24 is rejected (ERR overflow). *)
+let big (v : z) = let x = i64_of_z v in Int64.compare (Int64.abs x) 16777216L > 0 || (match v with Zpos p | Zneg p -> (let rec len = function XH -> 1 | XO q | XI q -> 1 + len q in len p > 40) | Z0 -> false)
 
 let params = [O; S O; S (S O)]
 let mk_locals a = List.map2 (fun x v -> (x, z_of_int v)) params a
@@ -116,7 +121,15 @@ let run_case (sx : sx) =
         let aw c a =
           let (txt, r) = mech_inst (depth + 1) id (int_of_nat c) [int_of_z a; 0; 0] in
           Buffer.add_string kids txt; z_of_int r in
-        let (t1, steps) = msteps aw fuel maxsteps t0 in
+        let aw c a = if big a then raise Overflow else let r = aw c a in if big r then raise Overflow else r in
+        let rec go n t acc =
+          if n = 0 || t.t_done || t.t_stuck then (t, List.rev acc)
+          else begin
+            let (t1, ev) = mstep aw fuel t in
+            List.iter (fun (_, v) -> if big v then raise Overflow) t1.t_loc;
+            go (n - 1) t1 (ev :: acc)
+          end in
+        let (t1, steps) = go (int_of_nat maxsteps) t0 [] in
         List.iter (fun evs -> Buffer.add_string mine ("S " ^ String.concat " " (List.map ev_str evs) ^ "\n")) steps;
         Buffer.add_string mine (Printf.sprintf "D ret=%s stuck=%d done=%d\n"
           (match t1.t_ret with Some v -> string_of_int (int_of_z v) | None -> "-")
@@ -130,7 +143,7 @@ let run_case (sx : sx) =
         if depth > 12 then raise Too_deep;
         let id = !scounter in incr scounter;
         let kids = Buffer.create 256 in
-        let aw c a = z_of_int (spec_inst (depth + 1) id (int_of_nat c) [int_of_z a; 0; 0] kids) in
+        let aw c a = if big a then raise Overflow else z_of_int (spec_inst (depth + 1) id (int_of_nat c) [int_of_z a; 0; 0] kids) in
         let ((_, o), r) = spec_run aw fuel defs.(d) (mk_locals args) in
         let rs, rv = match r with SNormal -> "-", 0 | SReturn_ v -> string_of_int (int_of_z v), int_of_z v | SFuel -> "fuel", 0 in
         Buffer.add_string out (Printf.sprintf "Q %d %d %d %s out=%s ret=%s\n" id d parent
@@ -147,7 +160,8 @@ let run_case (sx : sx) =
           | L (d :: args) -> ignore (spec_inst 0 (-1) (atom_int d) (List.map atom_int args) sbuf)
           | _ -> failwith "root") roots;
         print_string (Buffer.contents sbuf)
-      with Too_deep -> print_endline "ERR too-deep");
+      with Too_deep -> print_endline "ERR too-deep"
+         | Overflow -> print_endline "ERR overflow");
       print_endline "END"
   | _ -> print_endline "CASE"; print_endline "ERR bad-case"; print_endline "END"
 
